@@ -23,6 +23,12 @@ builds the resulting expression, all of whose continuations are structural sub-t
 `FExpr` is infinitely branching, so no natural-number measure exists; well-foundedness of the multiset
 extension is Mathlib's `WellFounded.cutExpand` (the only use of Mathlib in the project; axioms unchanged:
 propext, Classical.choice, Quot.sound).
+
+Audit finding 1 (session 6): `Valid` now includes the well-formedness side condition (`EvOK`: a source is never completed
+with `Try{}` / `Failure(nil)`, every constructed program is `WFE` — Lemmas/FutWF.lean).  The theorems of this file take
+`Valid` as hypothesis, so they no longer speak about runs in which a task of the Go code would panic in
+`t.Failed().Get()` and leave its promise pending (`C06.illformed_source_excluded`); along a valid run no ill-formed Try
+ever exists (`C06.wellformed_every_schedule`).
 -/
 namespace FpVerif.Spec.C06
 open FpVerif FpVerif.Fut FpVerif.Fut.Drain
